@@ -11,3 +11,51 @@ def run(rep, tier):
     kspec.run_spec(rep, "C12", tier)
     rep.out("names/keys longer than the harness bounds; urlencoding::decode itself (third party); IDNA; "
             "IPv6 literals inside check_bucket_name (IpAddr parser replaced by the IPv4 parser after ':' was excluded)")
+
+
+def host_witnesses(rep):
+    """witness family on the real build (ops::prepare + host parser): IP / socket-address hosts are path-style whatever host
+    parser is configured; a host under a configured base domain is virtual-hosted-style; both name the same bucket/key"""
+    import time
+    from vlib import replay
+    t0 = time.time()
+    ip_hosts = ["127.0.0.1", "127.0.0.1:8014", "10.1.2.3:80", "::1", "[::1]:8014", "2001:db8::1", "[2001:db8::1]", "[2001:db8::1]:443"]
+    cfgs = [None, ["example.com"], ["example.com", "s3.internal:9000"]]
+    scs, meta = [], []
+    for cfg in cfgs:
+        c = {"host": cfg} if cfg else {}
+        for h in ip_hosts:
+            scs.append({"config": c, "request": {"method": "DELETE", "uri": "/my-bucket/dir/a%20key", "headers": [["host", h]]}})
+            meta.append(("ip", cfg, h))
+        if cfg:
+            scs.append({"config": c, "request": {"method": "DELETE", "uri": "/dir/a%20key", "headers": [["host", "my-bucket." + cfg[0]]]}})
+            meta.append(("vh", cfg, "my-bucket." + cfg[0]))
+            scs.append({"config": c, "request": {"method": "DELETE", "uri": "/my-bucket/dir/a%20key", "headers": [["host", cfg[0]]]}})
+            meta.append(("base", cfg, cfg[0]))
+    outs = replay.run_scenarios(scs)
+    bad = []
+    for (kind, cfg, h), out in zip(meta, outs):
+        evs = [e for e in out.get("events", []) if e["ev"] == "s3.delete_object"]
+        good = bool(evs) and 'bucket: "my-bucket"' in evs[0].get("input", "") and 'key: "dir/a key"' in evs[0].get("input", "")
+        rep.traces_validated += 1
+        if not good:
+            bad.append((kind, cfg, h, out.get("status"), out.get("body_text", "")[:120]))
+    if bad:
+        kind, cfg, h, st, body = bad[0]
+        key = "host-style:%s" % ("ip-host-not-path-style" if kind == "ip" else kind)
+        res = rep.violation(key, "host %r with host parser %s: DELETE of my-bucket/'dir/a key' does not reach the backend with that bucket/key "
+                            "(status %s %s); %d of %d witness requests deviate" % (h, cfg, st, body, len(bad), len(scs)),
+                            rep.save_cex("host_witness", [list(b) for b in bad]), confirmed=True)
+        rep.obligation("host witnesses", "replayer", res, time.time() - t0)
+    else:
+        rep.obligation("host witnesses: %d requests (IPv4/IPv6/socket hosts x host parsers; virtual-hosted and base-domain hosts) resolve to the same bucket/key" % len(scs),
+                       "replayer(not solver-decided)", "holds", time.time() - t0, queries=len(scs))
+
+
+_run0 = run
+
+
+def run(rep, tier):
+    _run0(rep, tier)
+    rep.encoded("crates/s3s/src/ops/mod.rs", "prepare: host/path resolution, is_socket_addr_or_ip_addr (witness family only)")
+    host_witnesses(rep)
